@@ -93,6 +93,11 @@ def _case(draw):
         elif stt == "present+zero":
             rows.append(mk(mi, si))
             rows.append(mk(mi, si, zero=True))
+    if draw(st.sampled_from([False, True, False])):
+        # free-form annotation columns the loader does not use; blank cells in them must not matter
+        for r in rows:
+            r["gene"] = draw(st.sampled_from(["TP53", "", "KRAS", ""]))
+            r["effect"] = draw(st.sampled_from(["", "missense", "stop"]))
     rows = list(draw(st.permutations(rows)))
     bad_cn = draw(st.sampled_from([False, False, False, False, True]))
     cluster_ids = draw(st.lists(st.integers(0, 3), min_size=n_m, max_size=n_m)) if draw(st.integers(0, 2)) == 0 else None
@@ -208,6 +213,8 @@ def evaluate(case):
         classes.add("default-tumour-content")
     if "error_rate" not in rows[0]:
         classes.add("default-error-rate")
+    if "gene" in rows[0]:
+        classes.add("annotation-columns-with-blanks")
     if case["excluded"]:
         classes.add("excluded-by-construction")
     permuted = rows != canon_rows
